@@ -1109,6 +1109,7 @@ register('C12', [l2_suite('changes', native=False, name='l2-changes', determined
 register('C11', [l2_suite('changes', native=False, name='l2-changes', determined='reading a recorded version list returns other rows than were visible when it was recorded'),
                  l1_suite(['rows', 'plain'], monitor=chain(mutation_order_monitor, determined_result_monitor('an open restricted to recorded versions (or a later read) returns other entries than those versions hold')))], [])
 register('C16', [l2_suite('multi', native=False, extra_monitor=c02_monitor, name='l2-multi'), l0_suite(['nodecodec']), l1_suite(['rows']),
+                 l2_suite('vacuum', native=False, extra_monitor=c09_monitor, name='l2-vacuum', quick=40, thorough=1000),
                  l2_suite('faults', name='l2-faults', quick=80, thorough=1500,
                           determined='a fresh reader does not read exactly what the acknowledged commits wrote')], [])
 def c14_monitor(ctx, res, case, impl_line, model_line, spec):
